@@ -57,20 +57,15 @@ def _convertCFFToCFF2(cff, otFont):
         cs, fdIndex = charStrings.getItemAndSelector(glyphName)
         cs.decompile()
 
-    # Clean up subroutines first
+    # Clean up subroutines first. A final 'endchar' is kept until the widths
+    # have been dropped below: it may be the operator that takes the width.
     for subrs in [globalSubrs] + localSubrs:
         for subr in subrs:
             program = subr.program
-            i = j = len(program)
-            try:
-                i = program.index("return")
-            except ValueError:
-                pass
-            try:
-                j = program.index("endchar")
-            except ValueError:
-                pass
-            program[min(i, j) :] = []
+            if "return" in program:
+                program[program.index("return") :] = []
+            if "endchar" in program:
+                program[program.index("endchar") + 1 :] = []
 
     # Clean up glyph charstrings
     removeUnusedSubrs = False
@@ -120,6 +115,11 @@ def _convertCFFToCFF2(cff, otFont):
 
         if program and program[-1] == "endchar":
             program.pop()
+
+    for subrs in [globalSubrs] + localSubrs:
+        for subr in subrs:
+            if subr.program and subr.program[-1] == "endchar":
+                subr.program.pop()
 
     if removeUnusedSubrs:
         cff.remove_unused_subroutines()
